@@ -10,14 +10,14 @@ PY = "/venv/bin/python"
 CHECKS = {
     "C01": dict(
         technique="Lean 4 proof: resume exactness of the single-process iterator for every sampler/dataset kind, every k, chains and following epochs (TDV.SP.resume_*), and schedule independence / snapshot bookkeeping of the multi-process protocol (TDV.MP.*); differential (SP) and trace-validation (MP) correspondence; every-position resume oracle on the real loader",
-        text="TDV.SP.resume_exact_map/_iter/_ffwd, resume_chain_*, resume_epochs*, sampler and dataset laws (README dataset included as an instance), with the shared-generator exception refuted and excluded explicitly (known finding). TDV.MP.deterministic, snapshot_fields_map, take_snapshot_assertion_holds_map for every action sequence of the worker/main protocol. The MP constructor path (restore_ideal / snapshot_sound for iterable datasets with retirement) is NOT yet a theorem: there the claim rests on the oracle, which resumes at every interruption position of two epochs for generated configurations (all dataset kinds incl. the README dataset, uneven/empty shards, every snapshot interval, persistent workers, virtual worker processes under adversarial schedules) and on chains of resumes.",
-        note="Partial: MP resume exactness is proved only up to the protocol bookkeeping (schedule independence, snapshot fields); the restore path of the multi-process iterator is covered by the correspondence and the oracle, not by a theorem. Trusted: Lean kernel + standard axioms; datasets/samplers as parameters with stated laws; torch RNG abstract; virtual processes stand for OS processes.",
+        text="TDV.SP.resume_exact_map/_iter/_ffwd, resume_chain_*, resume_epochs*, sampler and dataset laws (README dataset included as an instance), with the shared-generator exception refuted and excluded explicitly (known finding). TDV.MP.deterministic, snapshot_fields_map, take_snapshot_assertion_holds_map for every action sequence of the worker/main protocol. The MP constructor path is a theorem for map-style datasets at every interval, W and prefetch factor (TDV.MPR.snapshot_sound_map: a checkpoint after n yields is exactly the ideal state at its snapshot step - the dispatch-time windows of _try_put_index are proved sufficient; restore_ideal_map, resume_exact_map, chain_map for all pairs of schedules) and for iterable datasets at interval 0 (…_iter_partial); for iterable datasets with interval >= 1 the statements are kept as *_statement (resume_exact_iter_of reduces them to snapshot_sound_iter + restore_ideal_iter) and the claim rests on the correspondence legs and on the oracle, which resumes at every interruption position of two epochs for generated configurations (all dataset kinds incl. the README dataset, uneven/empty shards, every snapshot interval, persistent workers, virtual worker processes under adversarial schedules) and on chains of resumes.",
+        note="Partial: for iterable datasets with snapshot interval >= 1 the multi-process snapshot-soundness / restore theorems are not closed (worker-state deltas through retirement); that region is covered by K-D (mpr_kd), K-T and the every-position oracle, not by a theorem. The fast-forward restore branch is covered by the SP theorems and the oracle only. Trusted: Lean kernel + standard axioms; datasets/samplers as parameters with stated laws; torch RNG abstract; virtual processes stand for OS processes.",
         ref="DESIGN.md §7 C01",
     ),
     "C03": dict(
         technique="Lean 4 proof: SP stream = reference chunking for all epochs; MP yields are a prefix of the round-robin reference in every reachable state and complete at stop (invariants I1-I4 by induction over action sequences) + correspondence + equality with torch.utils.data.DataLoader on the real code",
         text="TDV.SP.stream_eq_ref_*; TDV.MP.yields_prefix_ref(_map/_iter), epoch_complete(_map/_iter), progress_map/variant_map: for every W, prefetch factor, shard layout (empty/uneven) and every schedule the batches yielded are exactly Ref.interleave / Ref.chunk, each once. Tie: SP K-D, MP K-T (real _worker_loop under the virtual scheduler). Oracle: StatefulDataLoader vs torch DataLoader batch-for-batch over generated configurations and schedule policies; shuffle exactly-once; in_order=False multisets.",
-        note="Trusted: Lean kernel + standard axioms; in_order=False is covered by the oracle only (the model theorem assumes in_order); torch's DataLoader is the reference implementation for `DataLoader order`.",
+        note="Trusted: Lean kernel + standard axioms; torch's DataLoader is the reference implementation for `DataLoader order`. in_order=False (TDV.MPU.unordered_safe / unordered_complete: the yields are a permutation of the reference at stop, no stranding by the capacity rule) and persistent-worker epochs (TDV.MPU.reset_fresh, multi_epoch_*) are theorems too.",
         ref="DESIGN.md §7 C03",
     ),
     "C05": dict(
@@ -52,13 +52,13 @@ CHECKS = {
     ),
     "C11": dict(
         technique="Lean 4 proof: progress + variant (termination of next() under fairness) and error-after-prefix for the Prefetcher protocol; for ParallelMapper the full progress statement is refuted on two stuck states and proved outside them + trace validation + hang detection in virtual time",
-        text="TDV.PF.progress, variant, error_after_prefix, terminal_surfaced, next_after_end_prompt; PM.progress_partial with decided stuck-state witnesses (next() after a source error; process worker death) = known findings. Oracle: N extra next() calls after a failure or the end, never exceeding the virtual-time budget except the known findings.",
+        text="TDV.PF.progress, variant, error_after_prefix, terminal_surfaced, next_after_end_prompt; TDV.PM.progress at full strength after the two repaired hangs (next() after a source error; a dead worker), with early_stop_sound, runtime_error_sound, next_after_source_error_prompt, worker_death_detected. Oracle: N extra next() calls after a failure or the end, never exceeding the virtual-time budget except the known findings.",
         note="Partial: real wall-clock latency is not modelled; a hang is an exactly stuck or budget-exceeding state in virtual time.",
         ref="DESIGN.md §7 C11",
     ),
     "C12": dict(
         technique="Lean 4 proof: semaphore accounting invariant (permits + held + taken-not-released = max) over every interleaving; single-driver refuted when timed joins give up, proved otherwise + trace validation + probes at every scheduler switch point",
-        text="TDV.PF.readahead_bound, held_le, release_never_overflows, single_driver_partial with two_drivers_witness / single_driver_statement_false (known finding), PM.readahead_bound. Oracle: instrumented sources (pull count, concurrent entries) probed at every switch point, slow sources in virtual time across reset().",
+        text="TDV.PF.readahead_bound, held_le, release_never_overflows, single_driver_partial with two_drivers_witness / single_driver_statement_false (known finding), PM.readahead_bound, and the generation layer of ParallelMapper (TDV.PM.single_driver_partial(_weak), old_generation_silent, old_cannot_deliver_to_new). Oracle: instrumented sources (pull count, concurrent entries) probed at every switch point, slow sources in virtual time across reset().",
         note="Trusted: Lean kernel + standard axioms; pin_memory nodes are not modelled.",
         ref="DESIGN.md §7 C12",
     ),
@@ -94,7 +94,7 @@ CHECKS = {
     ),
     "C13": dict(
         technique="Lean 4 proof: refinement of the flag-based Loader / StatefulDataLoader facades to a list-based reference for every API history (simulation relation, induction over op lists) + differential correspondence of both real facades against the model",
-        text="TDV.Loader.refines_ref / TDV.SDLApi.refines_ref: for every Lawful root, every restart/persistent setting and every finite history over {iter, next, state_dict, load_state_dict(any earlier state)} the model's observations equal the reference's (with the reference's documented open choice set to the code's); resume_exact, get_transparent_partial, load_idempotent, epoch_counter. The strict readings of the property text are kept as *_statement with decided negation witnesses (three known findings, replayed on the real code). Tie: random API histories through the real Loader/SDL and the Lean model on every run.",
+        text="TDV.Loader.refines_ref / TDV.SDLApi.refines_ref: for every Lawful root, every restart/persistent setting and every finite history over {iter, next, state_dict, load_state_dict(any earlier state)} the model's observations equal the reference's (with the reference's documented open choice set to the code's); resume_exact, get_transparent_partial, load_idempotent, epoch_counter. The strict readings of the property text are kept as *_statement with decided negation witnesses (two known findings, replayed on the real code; a third was repaired and is a regression witness). Tie: random API histories through the real Loader/SDL and the Lean model on every run.",
         note="Trusted: Lean kernel + standard axioms; the root node / the SDL iterator are abstract parameters (their exactness is C02 / C01); correspondence is testing. Multi-worker SDL histories run on virtual worker processes.",
         ref="DESIGN.md §7 C13",
     ),
